@@ -15,7 +15,7 @@ statement:
 expr:
   number | bool | "name" (variable) | ["+"|"*"|"-"|"/"|"%"|"**", e, e] | ["[]", e, e] |
   ["call", fname, [e...], {kw: e}] | ["cmp", op, e, e] | ["not", e] | ["and"|"or"|"min"|"max", e, ...] |
-  ["if", c, t, e]
+  ["if", c, t, e] | ["arr", e, ...] (numpy object array of expressions)
 """
 import copy
 import dataclasses
@@ -77,6 +77,12 @@ def dec(e):
         return P.Max(tuple(dec(a) for a in e[1:]))
     if op == "if":
         return P.If(dec(e[1]), dec(e[2]), dec(e[3]))
+    if op == "arr":
+        # a numpy object array with symbolic entries (the Python generator and the interpreter take these entry by entry)
+        out = np.empty(len(e) - 1, dtype=object)
+        for i, a in enumerate(e[1:]):
+            out[i] = dec(a)
+        return out
     raise ValueError("bad expression %r" % (e,))
 
 
@@ -162,6 +168,10 @@ def evars(e):
         return out
     if isinstance(e, (tuple, list)):
         for c in e:
+            out |= evars(c)
+        return out
+    if isinstance(e, np.ndarray) and e.dtype == object:
+        for c in e.flat:
             out |= evars(c)
         return out
     if isinstance(e, Mapping):
@@ -424,6 +434,13 @@ def exhaustive_statements():
         yield {"t": "Yield", "expr": e, "time": t, "cond": c}
     for t, c in itertools.product(["Fail", "Raise", "Switch"], CONDS):
         yield {"t": t, "cond": c}
+    # numpy object arrays of expressions (numeric and symbolic entries mixed, a number first or last)
+    arrs = [["arr", 1, ["*", 2, "<state>y"], "x"], ["arr", "x", 1, 2], ["arr", 0, "j"], ["arr", ["[]", "a", "j"], 3],
+            ["arr", 1, 2], ["*", "<dt>", ["arr", 0.5, "n"]], ["arr", 2, ["call", "<func>f", ["<p>k"]]]]
+    for r, c in itertools.product(arrs, CONDS):
+        yield {"t": "Assign", "lhs": "r", "sub": None, "rhs": r, "loops": [], "cond": c}
+        yield {"t": "Yield", "expr": r, "time": "<t>", "cond": c}
+        yield {"t": "Call", "assignees": ["x"], "f": "<func>f", "args": [r], "kw": {}, "cond": c}
     for c in CONDS:
         yield {"t": "Implicit", "assignees": ["x"], "solve": ["s"],
                "exprs": [["-", "s", ["*", "<dt>", ["call", "<func>f", [["+", "s", "j"]]]]]],
